@@ -122,6 +122,20 @@ func (idx *KVIndex) AddDoc(docID string, value map[string]interface{}) error {
 	return nil
 }
 
+// CheckDoc reports whether AddDocTx would accept the document: every indexed field it holds is
+// a string or a number. It writes nothing, so a caller can refuse an element before any of it
+// has reached the store.
+func (idx *KVIndex) CheckDoc(doc map[string]interface{}) error {
+	for _, p := range idx.fields() {
+		if x := mapDig(doc, p); x != nil {
+			if _, t := GetTermBytes(x); t != TermString && t != TermNumber {
+				return fmt.Errorf("unsupported term type")
+			}
+		}
+	}
+	return nil
+}
+
 // AddDocTx add new document using a transaction provided by user
 func (idx *KVIndex) AddDocTx(tx kvi.KVBulkWrite, docID string, doc map[string]interface{}) error {
 	sdoc := Doc{Entries: [][]byte{}}
